@@ -24,6 +24,9 @@ CLAIMED = {
     "C06": ("fault_enumeration", "runtime monitor with fault injection at every radio-call position; every frame handed to the radio is decoded by the reference codec and counters checked for strict increase",
             "Base histories over the event alphabet are re-run once per radio call with an injected error at that call (plus sampled double faults and near-2^32 sessions) on nb, async and async+ClassC front-ends; the full counter of every uplink is recovered by MIC verification and must strictly increase until SessionExpired.",
             "Trusts the reference codec; a frame passed to tx counts as handed to the radio even if the call then errors; guarantee ends once expiry was reported.", "6/C06"),
+    "C08": ("exploration", "runtime monitor: executable model of the stated clauses applied to the hook snapshot before/after each accepted Class A downlink and to the answers decoded (reference codec) from the following uplinks",
+            "Every DataRate x TXPower x ChMaskCntl per region with 12 mask patterns, every DLSettings byte x 5 frequency classes, every DrRange byte x index/frequency classes, random single and multi-command downlinks (LinkADR blocks, answer overflow, up to 3 downlinks in sequence) in FOpts or port 0, RX1 or RX2, three front-ends; sticky answers followed over silent uplinks, a Class C downlink and the next Class A downlink.",
+            "Must-reject list restricted to unambiguous cases; snapshot trusted as the device's state (its behavioural consequences are checked by C09/C10); state comparison skipped when trailing answers were dropped.", "6/C08"),
     "C09": ("exploration", "runtime monitor: every TxConfig handed to the radio judged against the hook snapshot taken immediately before the call and independent regional tables; scripted RNG enumerates every start value so each possible channel choice is observed; RNG-draw budget as bounded-progress trap",
             "Channel-plan states reached by histories of LinkADRReq/NewChannelReq/DlChannelReq/CFList/set_datarate/ADR back-off bursts/join bias, five board (power, gain) combinations, three front-ends, nine regions; per state one uplink for each scripted RNG start value 0..127 and 16 from-scratch replays; join attempts incl. biases and re-joins.",
             "Regional tables (MaxEIRP, channel formulae, rate tables) transcribed from RP002; application precondition: set_datarate only to rates the mask leaves a channel for.", "6/C09"),
